@@ -147,6 +147,15 @@ class Ctx:
         return res
 
 
+def run_scaled(ctx, binary, test, shards, timeout, prefix):
+    """Cheap checks: the quick tier runs the harness's large ("thorough") workload once; the thorough
+    tier runs it at three seeds (seed, seed+7919, seed+15838), which deepens every seeded family."""
+    seeds = [ctx.seed] if ctx.tier == "quick" else [ctx.seed, ctx.seed + 7919, ctx.seed + 15838]
+    for i, sd in enumerate(seeds):
+        ctx.run_shards(binary, test, shards, timeout, "%ss%d" % (prefix, i), extra_env={"VERIF_TIER": "thorough", "VERIF_SEED": str(sd)})
+    return {"workload_scale": "harness 'thorough' workload x %d seed(s): %s" % (len(seeds), seeds)}
+
+
 class BuildError(Exception):
     pass
 
@@ -203,6 +212,7 @@ def finish(ctx, level, rule, assumptions, extra_cov=None, min_distinct=2, post=N
     stats = {}
     sets = {}
     samples = []
+    marks = []        # descriptors of cases that were executed (fallback for samples)
     violations = []   # (sig, case, observed, child)
     sig_counts = {}
     inconclusive = []
@@ -222,6 +232,8 @@ def finish(ctx, level, rule, assumptions, extra_cov=None, min_distinct=2, post=N
                 t = e.get("t")
                 if t == "mark":
                     last_mark = e.get("case")
+                    if len(marks) < 8 and last_mark is not None:
+                        marks.append(last_mark)
                 elif t == "sample":
                     if len(samples) < 12:
                         samples.append(e.get("v"))
@@ -301,6 +313,8 @@ def finish(ctx, level, rule, assumptions, extra_cov=None, min_distinct=2, post=N
         replay_paths.append((sig, p))
     n_new = sum(new_sigs.values())
 
+    if not samples:
+        samples = marks
     cov = dict(evaluations=evals, distinct_nontrivial=len(keys), rule=rule, samples=samples,
                inconclusive=len(inconclusive), children=len(ctx.children))
     for k, v in sorted(stats.items()):
